@@ -51,7 +51,7 @@ Definition layout_of (k : kind) : layout :=
   | KLinkADRReq => [F 4 (* TXPower *); F 4 (* DataRate *); F 16 (* ChMask *);
                     F 4 (* NbTrans *); F 3 (* ChMaskCntl *); RFU 1]
   | KLinkADRAns => [F 1 (* ChannelMaskACK *); F 1 (* DataRateACK *); F 1 (* PowerACK *); RFU 5]
-  | KDutyCycleReq => [F 8 (* MaxDCycle: 0..15, 255 in 1.0.1 *)]
+  | KDutyCycleReq => [F 4 (* MaxDCycle *); RFU 4] (* and the whole-octet value 255 of LoRaWAN 1.0: legacy_octets below *)
   | KRXParamSetupReq => [F 4 (* RX2DataRate *); F 3 (* RX1DROffset *); F 1 (* OptNeg / RFU in 1.0 *); F 24 (* Frequency / 100 Hz *)]
   | KRXParamSetupAns => [F 1 (* ChannelACK *); F 1 (* RX2DataRateACK *); F 1 (* RX1DROffsetACK *); RFU 5]
   | KDevStatusAns => [F 8 (* Battery *); F 6 (* Margin, signed *); RFU 2]
@@ -74,6 +74,31 @@ Definition layout_of (k : kind) : layout :=
   | KRejoinParamSetupAns => [F 1 (* TimeOK *); RFU 7]
   | KDeviceModeInd | KDeviceModeConf => [F 8 (* Class *)]
   | KProprietary => []
+  end.
+
+(* ---- whole-octet legacy values ----
+   DutyCycleReq.  LoRaWAN 1.0.2 and later, and 1.1 (section 5.3): DutyCyclePL = RFU (bits 7:4) |
+   MaxDCycle (bits 3:0), the layout above.  LoRaWAN 1.0 / 1.0.1 used the whole octet: MaxDCycle
+   0..15, and 255 = "the end-device is switched off".  A codec that serves both revisions - as this
+   library's encoder does (0..15 and 255 accepted) - has exactly one octet that is NOT read through
+   the layout: 255 is the value 255.  Every other octet is read through the layout, i.e. its bits
+   7:4 are RFU and ignored.  The exception is part of the description, not of a proof: the
+   kind-level encode / decode functions below consult this table. *)
+Definition legacy_octets (k : kind) : list N :=
+  match k with KDutyCycleReq => [255] | _ => [] end.
+
+Definition is_legacy (k : kind) (x : N) : bool := existsb (N.eqb x) (legacy_octets k).
+
+(* bytes of a payload of kind k from its field values / field values from its bytes *)
+Definition spec_encode_k (k : kind) (vals : list N) : list N :=
+  match vals with
+  | [v] => if is_legacy k v then [v] else spec_encode (layout_of k) vals
+  | _ => spec_encode (layout_of k) vals
+  end.
+Definition spec_decode_k (k : kind) (bs : list N) : list N :=
+  match bs with
+  | [b] => if is_legacy k b then [b] else spec_decode (layout_of k) bs
+  | _ => spec_decode (layout_of k) bs
   end.
 
 (* ---- semantic maps between struct values and field values ---- *)
@@ -157,9 +182,11 @@ Definition value_of (k : kind) (l : list N) : macpl :=
 
 (* Values the specification allows: every field within its width, plus the
    narrower ranges the specification states (frequency a multiple of the
-   step and below 2^24 steps; margin -32..31; MaxDCycle 0..15 or 255;
-   RejoinType 0 or 2; Minor 0..7 as the subset this library accepts - only
-   Minor = 1 is defined by LoRaWAN 1.1). *)
+   step and below 2^24 steps; margin -32..31; MaxDCycle 0..15 or the legacy 255;
+   ForceRejoinReq RejoinType 0..2 - LoRaWAN 1.1 section 5.13: 0 or 1 = a
+   Rejoin-request type 0 shall be transmitted, 2 = type 2, 3..7 RFU; Minor 0..7
+   as the subset this library accepts - only Minor = 1 is defined by LoRaWAN 1.1,
+   the test suite pins the refusal of Minor 8). *)
 Definition freq_ok (f : N) : bool := (f mod 100 =? 0) && (f / 100 <? 2 ^ 24).
 Definition spec_in_range (p : macpl) : bool :=
   match p with
@@ -184,7 +211,7 @@ Definition spec_in_range (p : macpl) : bool :=
   | PDeviceTimeAns d => (0 <=? d)%Z && (d / 1000000000 <? 2 ^ 32)%Z
   | PResetInd m | PResetConf m | PRekeyInd m | PRekeyConf m => m <? 8
   | PADRParamSetupReq l d => (l <? 16) && (d <? 16)
-  | PForceRejoinReq period retries ty dr => (period <? 8) && (retries <? 8) && ((ty =? 0) || (ty =? 2)) && (dr <? 16)
+  | PForceRejoinReq period retries ty dr => (period <? 8) && (retries <? 8) && (ty <? 3) && (dr <? 16)
   | PRejoinParamSetupReq t c => (t <? 16) && (c <? 16)
   | PDeviceModeInd c | PDeviceModeConf c => c <? 256
   | PProprietary bs => bytes_ok bs
